@@ -214,3 +214,5 @@ def corpus_run(run, tier, want):
                 traces.append(([e for e in o.get("events", []) if e["ev"] != "Def"], rp))
         if traces: gc.validate_traces(run, traces, "corpus")
     run.extra["corpus_cases"] = len(cases)
+
+import props_mem  # noqa: E402  (registers C27)
